@@ -1809,6 +1809,7 @@ impl Engine for C09 {
             "probe.e2e_real_process_output_equals_simulated_process_output",
             "probe.e2e_affiliate_spelled_differently_from_row_to_row",
             "probe.e2e_verbose_runs",
+            "fault.output_disk_full_in_every_process_of_the_input",
             "probe.fx_every_process_starts_from_a_hand_edited_cache",
             "probe.fx_first_run_downloaded",
             "probe.fx_second_run_served_from_cache",
